@@ -91,3 +91,58 @@ CHECKS['C05'] = dict(
                      quick=_c05_runs(5, 5, 5, 0, 1, 100, (0, 5), (1,)),
                      thorough=_c05_runs(6, 6, 7, 3, 2, 900, (0, 5, 6), (1, 0)))],
 )
+
+
+PTHREAD_WRAP = '-Wl,' + ','.join('--wrap=' + f for f in (
+    'pthread_mutex_init pthread_mutex_destroy pthread_mutex_lock pthread_mutex_trylock pthread_mutex_unlock '
+    'pthread_cond_init pthread_cond_destroy pthread_cond_wait pthread_cond_timedwait pthread_cond_signal pthread_cond_broadcast '
+    'pthread_create pthread_join').split())
+
+
+def schedx_part(name, harness, libs, quick, thorough, variant='asan', **kw):
+    d = dict(name=name, harness=harness, sources=['harness/%s.c' % harness], plain_sources=['engine/schedx.c'],
+             plain_cflags=['-DSCHEDX_TSAN'] if variant == 'tsan' else [], libs=libs, variant=variant,
+             ldflags=[PTHREAD_WRAP], quick=quick, thorough=thorough)
+    d.update(kw)
+    return d
+
+
+def _c06_cfgs(maxthr, maxtask, with_nested=True):
+    out = []
+    for flags in (0, 1, 2, 3):
+        for wait in (1, 0):
+            for thr in range(1, maxthr + 1):
+                for tasks in range(1, maxtask + 1):
+                    out.append(dict(threads=thr, tasks=tasks, flags=flags, wait=wait, submitters=0, nested=0))
+            out.append(dict(threads=min(2, maxthr), tasks=2, flags=flags, wait=wait, submitters=2, nested=0))
+            if with_nested:
+                out.append(dict(threads=min(2, maxthr), tasks=min(2, maxtask), flags=flags, wait=wait, submitters=0, nested=1))
+    return out
+
+
+def _c06_runs(cfgs, budget, spurious, dl, workers, extra=(), sub_budget=None):
+    out = []
+    for c in cfgs:
+        b = budget if not c['submitters'] or sub_budget is None else sub_budget
+        out.append(['--threads', c['threads'], '--tasks', c['tasks'], '--flags', c['flags'], '--wait', c['wait'], '--submitters', c['submitters'],
+                    '--nested', c['nested'], '--budget', b, '--spurious', spurious, '--deadline', dl, '--workers', workers] + list(extra))
+    return out
+
+
+CHECKS['C06'] = dict(
+    title='thread pool',
+    rule='every schedule (lock/unlock/cond/create/join/yield granularity, signal waiter choice enumerated) of the real thpool.c with real threads under a '
+         'serialising scheduler, within the preemption budget; per-schedule oracle: task run counts/arguments, concurrency width, free-return obligations, '
+         'use-after-destroy of mutex/condition, deadlock, parked threads at quiescence, ASan (and TSan in the tsan part)',
+    bounds=dict(quick='pools of 1-2 threads x 1-2 tasks x {eager,LAZY,DETACHED,LAZY|DETACHED} x wait_all{0,1}, + two submitter threads, + task submitting to its own pool; preemption budget 2 (state-pruned DFS), ASan; TSan on a subset',
+                thorough='up to 3 threads x 3 tasks, budget 3, spurious wake-ups 1, ASan + TSan, pruned/unpruned cross-check'),
+    assumptions=['sequentially consistent interleavings at pthread-operation granularity; C11 atomics are not scheduling points',
+                 'm_thpool_add racing with m_thpool_free from an unrelated thread is a caller-side use-after-free and is not generated'],
+    parallel=4,
+    parts=[schedx_part('asan', 'c06_thpool', ['thpool', 'structs', 'utils'],
+                       quick=_c06_runs(_c06_cfgs(2, 2), 2, 0, 100, 4, ['--prune', 1], sub_budget=1),
+                       thorough=_c06_runs(_c06_cfgs(3, 3), 3, 1, 1200, 4, ['--prune', 1], sub_budget=2)),
+           schedx_part('tsan', 'c06_thpool', ['thpool', 'structs', 'utils'], variant='tsan',
+                       quick=_c06_runs([c for c in _c06_cfgs(2, 2, False) if c['threads'] == 2 and c['tasks'] == 2 and (not c['submitters'] or (c['flags'] in (0, 3) and c['wait'] == 1))], 1, 0, 100, 4, ['--prune', 1]),
+                       thorough=_c06_runs(_c06_cfgs(2, 3, False), 2, 1, 1200, 4, ['--prune', 1]))],
+)
